@@ -250,7 +250,18 @@ def worker(cfg):
         res['sample'] = dict(cfg, obligations=out['obligations'], discharged=out['discharged'])
         return res
     res = {'cfg': {k: v for k, v in cfg.items() if k != 'pieces'}, 'key': f"{cfg['wave']}:{cfg['n']}:{cfg.get('twin')}"}
-    cfg = dict(cfg, pieces=pieces(cfg['wave']))
+    try:
+        cfg = dict(cfg, pieces=pieces(cfg['wave']))
+    except core.Inconclusive as e:
+        # the time function could not be followed symbolically: the obligations are probed on the real code with drawn numbers (a concrete
+        # failure is a violation with a replay), otherwise the configuration is inconclusive
+        import random as _r
+        hit = sx.probe_concrete(execute, dict(res['cfg']), _r.Random(hash((driver.seed_of(), res['key'])) & 0xffffffff))
+        res.update(paths=0, obligations=1, discharged=0, queries=0, solver_s=0.0, violations=[], inconclusive=[{'cfg': res['cfg'], 'error': f'Inconclusive: {e}'}])
+        if hit is not None and not cfg.get('twin'):
+            hit['pid'] = PID; hit['sig'].update({'wave': cfg['wave'], 'n': cfg['n'], 'symbolic_failed': [f'symbolic run inconclusive: {e}'[:160]]})
+            res['violations'].append(hit)
+        return res
     out = sx.run_symbolic(execute, cfg, cirlib.patched_modules(), rounds=0, seed=driver.seed_of())
     for v in out['violations']:
         v['cfg'] = res['cfg']; v['sig'].update({'wave': cfg['wave'], 'n': cfg['n']}); v['pid'] = PID
@@ -288,10 +299,11 @@ def main(tier):
     cfgs, N = configs(tier, driver.seed_of())
     with driver.FnTrace() as ft:
         for w in WAVES:
-            pieces(w)
+            try: pieces(w)
+            except core.Inconclusive: pass          # reported per configuration by the workers
             driver.guarded(worker)({'wave': w, 'n': 3})
     rep.functions |= ft.seen
-    rep.extra['time_function_pieces'] = {w: len(pieces(w)) for w in WAVES}
+    rep.extra['time_function_pieces'] = {w: (len(_PIECES[w]) if w in _PIECES else 'not followed symbolically') for w in WAVES}
     driver.run_pool(driver.guarded(worker), cfgs, rep, chunksize=4)
     return rep.finish(
         explanation='bounded symbolic verification: the real time functions are executed on a symbolic instant (mod as contract stub, comparison forks) to obtain their piecewise description; the true Fourier coefficient is computed from it by exact closed-form integration and compared, as polynomial identities over Q(j)(A, phi-units, offset, T, pi) decided by normal form / z3, with amplitude(n), phase(n), a(n), b(n), c(n), c(-n) returned by the real fourier_series objects, for every harmonic order up to the bound; lookup by type name returns the waveform of that name; the time function evaluated on an array of instants (rational multiples of the period, jump instants included, any first sample; default, integer and symbolic offset; phase 0, 1/4, 1/2, 3/4 turn) equals its evaluation instant by instant (np.vectorize\'s output-type inference from the first sample is modelled)',
